@@ -67,8 +67,17 @@ def gen(rng, tier):
             "abandon": rng.choice([None, None, 0, 1, 2]), "update_after": rng.random() < 0.4,
             "locked_at": rng.choice([None, None, None, 0, 1, 2, 3, 4, 5, 6]),
             "explicit_dialect": rng.random() < 0.2,
+            # the same process has already built and opened a database of ANOTHER annotation under this very file name
+            "prior_tenant": rng.random() < 0.2,
+            # another annotation is read by a second iterator at the same time (zip-style), in this schedule
+            "companion": [rng.randrange(2) for _ in range(rng.randint(1, 12))] if rng.random() < 0.25 else None,
             "open_pragmas": rng.choice([None, None, {"reverse_unordered_selects": "ON"}, {"cache_size": 5, "temp_store": 2},
                                         {"synchronous": "OFF", "reverse_unordered_selects": "ON"}])}
+
+
+COMPANION_DIRS = ["companion-file 1", "other B"]
+COMPANION = ("##companion-file 1\nchrC\tsrc\tgene\t1\t5\t.\t+\t.\tID=cc1\n##other B\n#c\nchrC\tsrc\tgene\t2\t6\t.\t+\t.\tID=cc2\n"
+             "chrC\tsrc\tgene\t3\t7\t.\t+\t.\tID=cc3\n")
 
 
 def expected(items):
@@ -125,7 +134,14 @@ def run(case):
         if case.get("abandon") is not None:
             rq["abandon"] = case["abandon"]
             probes["abandoned_pass_collected_after_full_pass"] = 1
+        if case.get("companion") is not None and case.get("abandon") is None:
+            rq["companion"] = {"text": COMPANION, "schedule": case["companion"]}
+            rq.pop("passes")
+            probes["second_iterator_over_another_file_interleaved"] = 1
         r = call(n, rq)
+        if r["ok"] and r.get("companion") is not None and r["companion"]["directives"] != COMPANION_DIRS:
+            V.append(viol("C14.iter", "a second DataIterator over another file, advanced alternately, ends with directives %r, its file has %r" % (
+                r["companion"]["directives"], COMPANION_DIRS), kind="iter_directives", form="companion"))
         if not r["ok"]:
             V.append(viol("C14.iter", "iterating the input raised %s: %s" % (r["exc"], r["msg"]), kind="iter_failed", exc=r["exc"]))
         else:
@@ -146,6 +162,18 @@ def run(case):
             if case.get("explicit_dialect"):
                 creq["explicit_dialect"] = True  # dialect= stated by the caller instead of inferred
                 probes["dialect_given_by_caller"] = 1
+            if case.get("prior_tenant"):
+                pt = call(n, {"op": "create", "h": "prior", "db": "a.db", "data": {"form": "string", "text": COMPANION},
+                              "kw": {"merge_strategy": "create_unique"}})
+                if pt["ok"]:
+                    call(n, {"op": "dump", "h": "prior", "relations": False})
+                    call(n, {"op": "open", "h": "prior2", "db": "a.db"})
+                    call(n, {"op": "drop", "h": "prior"})
+                    call(n, {"op": "drop", "h": "prior2"})
+                    call(n, {"op": "gc"})
+                    ckw = dict(ckw, force=True)
+                    creq["kw"] = ckw
+                    probes["file_name_previously_held_another_annotation"] = 1
             if case.get("locked_at") is not None:
                 # 'database is locked' at one commit of the import: the call may fail (then a forced re-import must
                 # be right) or succeed (then the directives must be exact) - never store a directive twice
